@@ -115,7 +115,14 @@ def run(ctx, driver):
             mod = PyTorchSTFTFrameComputer.from_stft_frame_computer(comp, torch.cdouble, torch.double)
             try:
                 with torch.no_grad():
-                    got = mod(to_t(x.astype(dt))).numpy()
+                    xt = to_t(x.astype(dt))
+                    if (L + S + N + j) % 3 == 0 and N > 0:
+                        # a strided (non-contiguous) view of a longer tensor holding the same samples
+                        big = torch.zeros(2 * N + 1, dtype=xt.dtype)
+                        big[1::2] = xt
+                        xt = big[1::2]
+                        ctx.count("noncontiguous_input")
+                    got = mod(xt).numpy()
                 err = None
             except RuntimeError as e:
                 got, err = None, "X"
